@@ -26,7 +26,7 @@ Lemma read_int32_bs2 fv pv cell bv k sx m o : is_ptr fv -> is_ptr pv -> Forall b
   end.
 Proof.
   intros Hf Hp Hs. rewrite read_int32_model. cbn [fbody prog_sbdf_read_int32]. unfold ri2.
-  destruct fv as [| fr fo | | |]; try contradiction. destruct pv as [| pr po | | |]; try contradiction.
+  destruct fv as [| fr fo | | | | |]; try contradiction. destruct pv as [| pr po | | | | |]; try contradiction.
   destruct sx as [|b0 [|b1 [|b2 [|b3 r]]]].
   1-4: do 2 eexists; (eapply bsE_seq; [eapply bsE_if; [evr; reflexivity|reflexivity|apply bsE_skip]|]);
        eapply bsE_seq_ret; (eapply bsE_if; [evr; reflexivity|reflexivity|]); eapply bsE_return; evr; chk7; evr; reflexivity.
@@ -53,7 +53,7 @@ Proof.
   intros Hf Hp Hs st Hr. cbn [fbody prog_sbdf_read_string]. unfold rs.
   assert (Est : st = SBDF_ERROR_IO).
   { rewrite read_int32_model in Hr. destruct sx as [|b0 [|b1 [|b2 [|b3 r]]]]; congruence. }
-  destruct fv as [| fr fo | | |]; try contradiction. destruct sv as [| pr po | | |]; try contradiction.
+  destruct fv as [| fr fo | | | | |]; try contradiction. destruct sv as [| pr po | | | | |]; try contradiction.
   pose proof (read_int32_bs2 (VPtr fr fo) cell_token VUndef bv k sx m o I I Hs) as RI. rewrite Hr in RI. destruct RI as (c' & s' & RI).
   eexists. split.
   - eapply bsE_seq; [eapply bsE_decl0; evr; reflexivity|]. eapply bsE_seq; [eapply bsE_decl0; evr; reflexivity|]. eapply bsE_seq; [eapply bsE_decl0; evr; reflexivity|].
@@ -98,7 +98,7 @@ Lemma read_string_bs_body fv sv e l t c1 cs bv k sx m o n s' : is_ptr fv -> is_p
      else (exists blk, inb fin = m ++ blk) /\ lookup strm_var (vars fin) = Some (VBytes [])).
 Proof.
   intros Hf Hp Hs Hr Hmax. cbn [fbody prog_sbdf_read_string]. unfold rs. unfold int_max in Hmax.
-  destruct fv as [| fr fo | | |]; try contradiction. destruct sv as [| pr po | | |]; try contradiction.
+  destruct fv as [| fr fo | | | | |]; try contradiction. destruct sv as [| pr po | | | | |]; try contradiction.
   pose proof (read_int32_bs2 (VPtr fr fo) cell_token VUndef bv k sx m o I I Hs) as RI. rewrite Hr in RI.
   assert (Hn : int_min <= n <= int_max).
   { rewrite read_int32_model in Hr. destruct sx as [|b0 [|b1 [|b2 [|b3 r]]]]; try discriminate. injection Hr as <- _.
@@ -175,7 +175,7 @@ Lemma read_string_bs_max fv sv e l t c1 cs bv k sx m o s' : is_ptr fv -> is_ptr 
   exists fin, bsE prog_env (fbody prog_sbdf_read_string) (rs fv sv e l t c1 cs bv k sx m o) (OReturn (VInt SBDF_ERROR_OUT_OF_MEMORY) fin) /\ inb fin = m.
 Proof.
   intros Hf Hp Hs Hr. cbn [fbody prog_sbdf_read_string]. unfold rs.
-  destruct fv as [| fr fo | | |]; try contradiction. destruct sv as [| pr po | | |]; try contradiction.
+  destruct fv as [| fr fo | | | | |]; try contradiction. destruct sv as [| pr po | | | | |]; try contradiction.
   pose proof (read_int32_bs2 (VPtr fr fo) cell_token VUndef bv k sx m o I I Hs) as RI. rewrite Hr in RI.
   pose proof (str_create_len_refused s' VNull int_max VUndef bv k m o (or_intror eq_refl)) as CL.
   eexists. split.
